@@ -1,6 +1,7 @@
 package mon
 
 import (
+	"sync"
 	"bytes"
 	"encoding/base64"
 	"encoding/hex"
@@ -678,6 +679,25 @@ func c05Zone(w *core.W, j int) {
 		}
 		r := c05Base(g, l)
 		r.Owner = model.Name{[]byte(fmt.Sprintf("r%d", k)), []byte("example")}
+		if k == 0 && (j/len(ls))%3 == 1 && len(l.Fields) > 0 {
+			// the first record ends early: its last field is empty (no key, no digest, no type list, no
+			// parameters), so its line ends right behind the field before - and the next entry follows
+			last := len(l.Fields) - 1
+			switch l.Fields[last].Kind {
+			case model.KB64, model.KHex, model.KOctet:
+				r.Vals[last] = []byte{}
+			case model.KBitmap:
+				r.Vals[last] = []uint16{}
+			case model.KNames:
+				r.Vals[last] = []model.Name{}
+			case model.KSVCB:
+				r.Vals[last] = []model.SVCParam{}
+			case model.KAPL:
+				r.Vals[last] = []model.APLItem{}
+			}
+			r.Fixup()
+			w.Count("zones_first_record_ends_early", 1)
+		}
 		recs = append(recs, r)
 	}
 	var text strings.Builder
@@ -935,7 +955,28 @@ func c05Generic(w *core.W, j int) {
 }
 
 // c05Codes: all 65536 type and class codes through mnemonic and numeric spellings (4096 per case).
+var c05GoneOnce sync.Once
+
 func c05Codes(w *core.W, j int) {
+	// a user-registered private type that has been taken out of the registry again (PrivateHandle, then
+	// PrivateHandleRemove): its code is an unknown type like any other afterwards, in every table
+	c05GoneOnce.Do(func() {
+		dns.PrivateHandle("GONEPRIV", 65290, func() dns.PrivateRdata { return new(privRdata) })
+		dns.PrivateHandleRemove(65290)
+	})
+	if j == 15 {
+		for _, text := range []string{"n.example. 300 IN NSEC next.example. A TYPE65290", "s.example. 300 IN RRSIG TYPE65290 8 2 300 20300101000000 20200101000000 1 example. AAAA"} {
+			rr, err := dns.NewRR(text)
+			w.Eval(1)
+			w.Count("removed_private_type_records", 1)
+			if err != nil || rr == nil {
+				continue
+			}
+			if back, err := dns.NewRR(rr.String()); err != nil || back == nil || back.String() != rr.String() {
+				w.Violation("C05/reparse-error/removed-private-type", fmt.Sprintf("a record that mentions the code of a private type that was registered and removed again prints as %q, which reads back as err=%v", rr.String(), err), map[string]any{"text": text})
+			}
+		}
+	}
 	for k := 0; k < 4096; k++ {
 		code := uint16(j*4096 + k)
 		w.Eval(1)
